@@ -484,7 +484,7 @@ def main(tier, seed):
     progs = c07_corpus() + pg.corpus()
     ncur = len(progs)
     rng = random.Random(seed)
-    nrand = 150 if tier == "quick" else 1500
+    nrand = 150 if tier == "quick" else 12000
     g = pg.ProgGen(rng, max_ops=6, multi_phase=False,
                    pair_targets=[("a", "b"), ("<p>k", "a"), ("<state>z", "b"), ("<state>y", "c"), ("b", "<state>z")])
     nren = 0
